@@ -185,8 +185,11 @@ def seq_len(t):
     n = concrete_seq_len(t)
     if n is not None:
         return z3.IntVal(n)
-    name = 'slen' if t.sort() == z3.StringSort() else 'blen'
-    return UF(name, t.sort(), z3.IntSort())(t)
+    if t.sort() == z3.StringSort():
+        return UF('slen', t.sort(), z3.IntSort())(t)
+    # bytes: the sequence theory's own length (key/value algebra of the index code needs it: slices of
+    # concatenations); strings use an uninterpreted length, see above
+    return z3.Length(t)
 
 
 def concrete_seq_len(t):
@@ -1492,6 +1495,9 @@ def call_builtin(ip, f, args, kwargs, node, fr):
         if f.self_val is not None and 'self' not in names:
             names = ['self'] + names
         env = dict(zip(names, ([f.self_val] if f.self_val is not None else []) + list(args)))
+        env.update(kwargs)
+        for pname, dflt in getattr(c, 'defaults', {}).items():
+            env.setdefault(pname, dflt if isinstance(dflt, Value) else VConst(dflt))
         return ip.apply_contract_env(c, env, node, fr)
     if name in ip.reg.builtin_contracts and f.fkind == 'builtin':
         c = ip.reg.builtin_contracts[name]
@@ -2572,6 +2578,16 @@ def cm_enter(ip, cm, item, fr):
     cm = resolve(ip, cm)
     if isinstance(cm, VOpaque):
         return cm
+    if isinstance(cm, VObj):
+        spec = ip.reg.classes.get(cm.cls)
+        if spec is not None and '__enter__' in spec.methods:
+            c = ip.reg.contracts[spec.methods['__enter__']]
+            ip.apply_contract_env(c, {'self': cm}, item.context_expr, fr)
+            return cm
+        m = find_method(ip, *cm.cls.split(':'), '__enter__') if not cm.cls.startswith('ext:') else None
+        if m is not None:
+            f = VFunc('repo', '__enter__', target=m[1], self_val=cm)
+            return ip.call(f, [], {}, item.context_expr, fr)
     if isinstance(cm, VObj) and hasattr(cm, 'cm_enter'):
         return cm.cm_enter(ip)
     raise EngineError(f'context manager {cm!r} is not modelled')
@@ -2581,6 +2597,18 @@ def cm_exit(ip, cm, exc, fr, node):
     cm = resolve(ip, cm)
     if isinstance(cm, VOpaque):
         return
+    if isinstance(cm, VObj):
+        spec = ip.reg.classes.get(cm.cls)
+        if spec is not None and '__exit__' in spec.methods:
+            c = ip.reg.contracts[spec.methods['__exit__']]
+            ip.apply_contract_env(c, {'self': cm, 'failed': VConst(exc is not None)}, node, fr)
+            return
+        m = find_method(ip, *cm.cls.split(':'), '__exit__') if not cm.cls.startswith('ext:') else None
+        if m is not None:
+            f = VFunc('repo', '__exit__', target=m[1], self_val=cm)
+            none = VConst(None)
+            ip.call(f, [none, none, none], {}, node, fr)
+            return
     if isinstance(cm, VObj) and hasattr(cm, 'cm_exit'):
         return cm.cm_exit(ip, exc)
     raise EngineError(f'context manager {cm!r} is not modelled')
@@ -3149,3 +3177,72 @@ def _next(ip, args, kwargs, node, fr):
 @builtin('itertools.count')
 def _count(ip, args, kwargs, node, fr):
     return VOpaque('itertools.count')
+
+
+# ---------------------------------------------------------------------------------------------
+# T-STRUCT: struct.Struct pack / unpack / unpack_from for the fixed-width formats the repository uses
+
+STRUCT_FMT = {'<i': ('le', 4, True), '<q': ('le', 8, True), '<H': ('le', 2, False), '<I': ('le', 4, False),
+              '<Q': ('le', 8, False), '>H': ('be', 2, False), '>I': ('be', 4, False), 'B': ('le', 1, False)}
+
+
+def struct_funcs(order, signed):
+    B = z3.SeqSort(ByteSort)
+    tag = order + ('s' if signed else 'u')
+    return (UF(f'{tag}_enc', z3.IntSort(), z3.IntSort(), B), UF(f'{tag}_dec', B, z3.IntSort()))
+
+
+def struct_range(w, signed):
+    return (-(1 << (8 * w - 1)), 1 << (8 * w - 1)) if signed else (0, 1 << (8 * w))
+
+
+@method('Struct', 'pack')
+def _st_pack(ip, recv, args, kwargs, node, fr):
+    ip.assumed.add('T-STRUCT')
+    order, w, signed = STRUCT_FMT[recv.fmt]
+    v = resolve(ip, args[0])
+    if not is_intlike(v):
+        raise PyRaise(VExc('struct.error'), node)
+    n = int_term(v)
+    lo, hi = struct_range(w, signed)
+    ip.raise_if(z3.Or(n < lo, n >= hi), 'struct.error', node)
+    enc, dec = struct_funcs(order, signed)
+    r = enc(n, w)
+    ip.assume(z3.Length(r) == w)
+    ip.assume(dec(r) == n)
+    return VBytes(r)
+
+
+def struct_unpack(ip, recv, t, node):
+    order, w, signed = STRUCT_FMT[recv.fmt]
+    enc, dec = struct_funcs(order, signed)
+    n = dec(t)
+    lo, hi = struct_range(w, signed)
+    ip.assume(z3.Implies(z3.Length(t) == w, z3.And(n >= lo, n < hi, enc(n, w) == t)))
+    return VTuple((VInt(n),))
+
+
+@method('Struct', 'unpack')
+def _st_unpack(ip, recv, args, kwargs, node, fr):
+    ip.assumed.add('T-STRUCT')
+    order, w, signed = STRUCT_FMT[recv.fmt]
+    b = resolve(ip, args[0])
+    if not is_bytes(b):
+        raise PyRaise(VExc('TypeError'), node)
+    t = KBytes.unwrap(b)
+    ip.raise_if(z3.Length(t) != w, 'struct.error', node)
+    return struct_unpack(ip, recv, t, node)
+
+
+@method('Struct', 'unpack_from')
+def _st_unpack_from(ip, recv, args, kwargs, node, fr):
+    ip.assumed.add('T-STRUCT')
+    order, w, signed = STRUCT_FMT[recv.fmt]
+    b = resolve(ip, args[0])
+    off = resolve(ip, args[1]) if len(args) > 1 else VConst(0)
+    if not is_bytes(b):
+        raise PyRaise(VExc('TypeError'), node)
+    t = KBytes.unwrap(b)
+    o = int_term(off)
+    ip.raise_if(z3.Or(o < 0, o + w > z3.Length(t)), 'struct.error', node)
+    return struct_unpack(ip, recv, z3.SubSeq(t, o, w), node)
